@@ -80,6 +80,7 @@ type GenOpts struct {
 	MinRuleBlocks      int  // lower bound on the number of rule{} blocks in the config
 	CommentPerKind     bool // all check blocks of one kind share their `comment` (see sevAttrs)
 	Bulk               bool // a third of the inputs get one extra file with 50-200 rules in one group, or 10-50 small files
+	LongLine           bool // a fifth of the inputs get a file with one physical line of 70-100 KiB
 	PromFilters        bool // prometheus{} blocks with include/exclude path filters and tags (closed port unless Online)
 	Styles             gen.StyleOpts
 }
@@ -270,6 +271,30 @@ func spreadFile(i, n, k, variant int) string {
 	return b.String()
 }
 
+// longLineFile is a small valid rule file with ONE physical line of about size bytes:
+// an expr matching thousands of hosts through a regexp alternation (0), a comment (1)
+// or an annotation (2).  Its alert has no condition, so alerts/comparison always
+// reports a Warning for this file, next to whatever the config adds.
+func longLineFile(size, variant int) string {
+	var long strings.Builder
+	switch variant {
+	case 0:
+		for i := 0; long.Len() < size; i++ {
+			if i > 0 {
+				long.WriteByte('|')
+			}
+			fmt.Fprintf(&long, "host%05d", i)
+		}
+		return "groups:\n- name: long\n  rules:\n  - alert: LongLine\n    expr: up{instance=~\"" + long.String() + "\"}\n    for: 1m\n    labels:\n      severity: page\n"
+	case 1:
+		long.WriteString(strings.Repeat("long comment ", size/13))
+		return "groups:\n- name: long\n  rules:\n  # " + long.String() + "\n  - alert: LongLine\n    expr: up\n    for: 1m\n    labels:\n      severity: page\n"
+	default:
+		long.WriteString(strings.Repeat("very long text ", size/15))
+		return "groups:\n- name: long\n  rules:\n  - alert: LongLine\n    expr: up\n    annotations:\n      summary: \"" + long.String() + "\"\n    labels:\n      severity: page\n"
+	}
+}
+
 // renderDoc renders groups (styled) plus optional extra raw rule nodes that
 // are appended to the last group.
 func renderDoc(s *gen.Styler, groups []gen.GroupSpec, extra []*gen.Node) string {
@@ -387,6 +412,13 @@ func GenInput(t *rapid.T, o GenOpts) Input {
 			in.Files = append(in.Files, FileSpec{Name: "bulk.yml", Content: bulkFile(n, k, v)})
 			tag["bulk"] = true
 		}
+	}
+
+	if o.LongLine && rapid.IntRange(0, 4).Draw(t, "longline") == 0 {
+		size := rapid.IntRange(70, 100).Draw(t, "longline.kib") * 1024
+		variant := rapid.IntRange(0, 2).Draw(t, "longline.variant")
+		in.Files = append(in.Files, FileSpec{Name: "long.yml", Content: longLineFile(size, variant)})
+		tag["long-line"] = true
 	}
 
 	var ctags []string
